@@ -16,7 +16,7 @@ func init() {
 		Run: ruleSrvChunkBound,
 	})
 	register(&Rule{
-		Name: "cli-chunk-bound", Props: []string{"C07"}, Engine: "UB", Floor: 8,
+		Name: "cli-chunk-bound", Props: []string{"C07", "C02", "C12"}, Engine: "UB", Floor: 9,
 		Doc: "in the client's body sender the byte count n is bounded above by the stream window, the connection window and the buffered length (clamped at 0), both windows are debited by n and body[:n] is what is flushed, all under sendLck; the frame writer cuts body[i:i+step] with step bounded by the peer's MAX_FRAME_SIZE (fallback 2^14) and the tail idiom",
 		Run: ruleCliChunkBound,
 	})
@@ -243,6 +243,13 @@ func ruleCliChunkBound(p *Prog, r *Out) {
 						fmt.Sprintf("the client flushes %s[:%s] but %s is not bounded above by the %s (%s); known bounds: %v", src, n, n, w.what, w.key, sortedKeys(b)))
 				}
 				r.check(b["0-clamped"], "n clamped at 0", p.pos(flush.Pos()), "negative window sends nothing", "n is not clamped at 0: a negative window (after a SETTINGS decrease) yields a negative slice bound")
+				// what is written with the request's Ctx held is a run of bounded length, whatever the windows allow
+				runOK := false
+				if v, okc := p.pkgConst("sendRun"); okc && v >= 16384 && v <= 1<<20 && b["sendRun"] {
+					runOK = true
+				}
+				r.check(runOK, "n <= a constant run length", p.pos(flush.Pos()), fmt.Sprintf("%s <= sendRun, a constant between 16 KiB and 1 MiB", n),
+					fmt.Sprintf("the client flushes %s[:%s] with the request's Ctx held and %s is bounded by the flow-control windows only (known bounds: %v): a window of megabytes against a server that reads slowly keeps the Ctx for longer than the writeGrace a waiter allows the write in progress, and a WINDOW_UPDATE arriving meanwhile costs the connection", src, n, n, sortedKeys(b)))
 				for _, w := range []struct{ owner, field, expr string }{{"pendingBody", "window", "pb.window"}, {"Conn", "connWindow", "c.connWindow"}} {
 					found := false
 					for _, s := range loop.Body.List {
